@@ -114,6 +114,16 @@ CHECKS = {
               "depth of a run is NOT decided."),
         note=TRUST + "; positive parameters; pull/receive_reward alternate",
         ref="DESIGN.md section 4-C06"),
+    "C07": dict(
+        engine="E7 idioms + E3 summaries",
+        technique="arg-max fold recognition + candidate-set/key resolution + sentinel/hand-out rules + delegation shape checks",
+        text=("Static necessary conditions: each recommendation is an arg-max (direction, key resolved to the recorded attribute, "
+              "seed -inf, full candidate set) returning the winner's representative; never-evaluated cells cannot win (sentinel / "
+              "hand-out rule / mean conventions); POO/GPO return the arg-max-score learner's proposal / validated point; PCT/VPCT are "
+              "pure forwards; rewards are recorded unconditionally (C04's ONCE/NODE rules for these algorithms). 'Whatever the sign of "
+              "the rewards' is covered only through the sentinel rule."),
+        note=TRUST + "; ties may resolve either way",
+        ref="DESIGN.md section 4-C07"),
 }
 
 NOT_YET = "checker under construction in this round (see DESIGN.md section 0 for the clause it will decide)"
